@@ -27,3 +27,59 @@ Definition show_token (t : token) : str :=
 Definition show_tokens (ts : list token) : str := join_with [32] (map show_token ts).
 
 Definition show_pieces (ps : list str) : str := join_with [32] (map (fun p => 112 :: hex_of p) ps).
+
+(** ** trees *)
+From PQL Require Export Model.Parser.
+
+Definition show_span (s : span) : str :=
+  match s with
+  | Some (a, b) => nat_to_dec a ++ [58] ++ nat_to_dec b
+  | None => [45; 49; 58; 45; 49]
+  end.
+
+Fixpoint show_gnode (n : gnode) : str :=
+  match n with
+  | GN k fs => [40] ++ nkind_name k ++ flat_map (fun fv => match fv with (_, v) => 32 :: show_gfield v end) fs ++ [41]
+  end
+with show_gfield (v : gfield) : str :=
+  match v with
+  | GSpan s => show_span s
+  | GStr s => 120 :: hex_of s
+  | GBool b => if b then [116] else [102]
+  | GKind k => Z_to_dec (kind_code k)
+  | GNode (Some c) => show_gnode c
+  | GNode None => [110; 105; 108]
+  | GSlice cs => [91] ++ join_with [32] (map show_gnode cs) ++ [93]
+  end.
+
+Definition show_pos (s : str) (e : perr) : str :=
+  match epos e with
+  | Some p => let '(l, c) := linecol s p in nat_to_dec l ++ [58] ++ nat_to_dec c
+  | None => [45]
+  end.
+
+Definition show_parse (s : str) : str :=
+  match parse s with
+  | ParseOk ss => [79; 75] ++ flat_map (fun st => 32 :: show_gnode (g_stmt st)) ss
+  | ParseErr e => [69; 82; 82; 32] ++ join_with [44] (map (show_pos s) e)
+  | ParseOutOfFuel => [70; 85; 69; 76]
+  | ParseInternal => [73; 78; 84; 69; 82; 78; 65; 76]
+  end.
+
+(** Span() of every node, in pre-order, for successfully parsed programs. *)
+Fixpoint all_spans (n : gnode) : list span :=
+  match n with
+  | GN k fs => gspan n :: flat_map (fun fv => match fv with (_, v) => field_spans v end) fs
+  end
+with field_spans (v : gfield) : list span :=
+  match v with
+  | GNode (Some c) => all_spans c
+  | GSlice cs => flat_map all_spans cs
+  | _ => []
+  end.
+
+Definition show_spans (s : str) : str :=
+  match parse s with
+  | ParseOk ss => [79; 75; 32] ++ join_with [32] (map show_span (flat_map (fun st => all_spans (g_stmt st)) ss))
+  | _ => [69; 82; 82]
+  end.
